@@ -39,7 +39,12 @@ pub(crate) fn add(ctx: &mut TulispContext) {
 
     fn cond(ctx: &mut TulispContext, args: &TulispObject) -> Result<TulispObject, Error> {
         for item in args.base_iter() {
-            if item.car_and_then(|x| eval_and_then(ctx, x, |x| Ok(x.is_truthy())))? {
+            let condition = item.car_and_then(|x| ctx.eval(x))?;
+            if condition.is_truthy() {
+                // A clause without body forms yields the value of its condition.
+                if item.cdr()?.null() {
+                    return Ok(condition);
+                }
                 return item.cdr_and_then(|x| ctx.eval_progn(x));
             }
         }
